@@ -1,27 +1,94 @@
 import TapkeeVerif.Proofs.ParamsEvalBase
-/- per-method verdicts, part 4 (split over several files so that they elaborate in parallel) -/
+/- per-method verdicts, part 4 (split over several files so that they elaborate in parallel):
+   one symbolic evaluation of the generated tables per method and per value of `hasF` (which fixes `current_dimension`) -/
 set_option linter.unusedSimpArgs false
 namespace TapkeeVerif.Params
 open TapkeeVerif.Front TapkeeVerif.Gen TapkeeVerif.C14
 
-theorem verdict_FactorAnalysis (r : Request) (t : TypedVals) (ps : PSet) (hget : ∀ k, ps.get k = t.get k)
-    (hm : t.meth .method = .FactorAnalysis) : Verdict .FactorAnalysis r t (afterMerge r ps) := by
-  front_simp [hget, hm]
+theorem verdict_SPE_local_f (r : Request) (t : TypedVals) (ps : PSet) (hget : ∀ k, ps.get k = t.get k)
+    (hm : t.meth .method = .StochasticProximityEmbedding) (hg : t.bool .spe_global_strategy = false) (hF : r.hasF = true) : Verdict .StochasticProximityEmbedding r t (afterMerge r ps) := by
+  front_simp [hget, hm, hF, hg]
   split_ifs <;> verdict_leaf
 
-theorem verdict_tDistributedStochasticNeighborEmbedding (r : Request) (t : TypedVals) (ps : PSet) (hget : ∀ k, ps.get k = t.get k)
-    (hm : t.meth .method = .tDistributedStochasticNeighborEmbedding) : Verdict .tDistributedStochasticNeighborEmbedding r t (afterMerge r ps) := by
-  front_simp [hget, hm]
+theorem verdict_SPE_local_nof (r : Request) (t : TypedVals) (ps : PSet) (hget : ∀ k, ps.get k = t.get k)
+    (hm : t.meth .method = .StochasticProximityEmbedding) (hg : t.bool .spe_global_strategy = false) (hF : r.hasF = false) : Verdict .StochasticProximityEmbedding r t (afterMerge r ps) := by
+  front_simp [hget, hm, hF, hg]
   split_ifs <;> verdict_leaf
 
-theorem verdict_ManifoldSculpting (r : Request) (t : TypedVals) (ps : PSet) (hget : ∀ k, ps.get k = t.get k)
-    (hm : t.meth .method = .ManifoldSculpting) : Verdict .ManifoldSculpting r t (afterMerge r ps) := by
-  front_simp [hget, hm]
+theorem verdict_SPE_local (r : Request) (t : TypedVals) (ps : PSet) (hget : ∀ k, ps.get k = t.get k)
+    (hm : t.meth .method = .StochasticProximityEmbedding) (hg : t.bool .spe_global_strategy = false) : Verdict .StochasticProximityEmbedding r t (afterMerge r ps) := by
+  cases hF : r.hasF
+  · exact verdict_SPE_local_nof r t ps hget hm hg hF
+  · exact verdict_SPE_local_f r t ps hget hm hg hF
+
+theorem verdict_SPE_global_f (r : Request) (t : TypedVals) (ps : PSet) (hget : ∀ k, ps.get k = t.get k)
+    (hm : t.meth .method = .StochasticProximityEmbedding) (hg : t.bool .spe_global_strategy = true) (hF : r.hasF = true) : Verdict .StochasticProximityEmbedding r t (afterMerge r ps) := by
+  front_simp [hget, hm, hF, hg]
   split_ifs <;> verdict_leaf
 
-theorem verdict_PassThru (r : Request) (t : TypedVals) (ps : PSet) (hget : ∀ k, ps.get k = t.get k)
-    (hm : t.meth .method = .PassThru) : Verdict .PassThru r t (afterMerge r ps) := by
-  front_simp [hget, hm]
+theorem verdict_SPE_global_nof (r : Request) (t : TypedVals) (ps : PSet) (hget : ∀ k, ps.get k = t.get k)
+    (hm : t.meth .method = .StochasticProximityEmbedding) (hg : t.bool .spe_global_strategy = true) (hF : r.hasF = false) : Verdict .StochasticProximityEmbedding r t (afterMerge r ps) := by
+  front_simp [hget, hm, hF, hg]
   split_ifs <;> verdict_leaf
+
+theorem verdict_SPE_global (r : Request) (t : TypedVals) (ps : PSet) (hget : ∀ k, ps.get k = t.get k)
+    (hm : t.meth .method = .StochasticProximityEmbedding) (hg : t.bool .spe_global_strategy = true) : Verdict .StochasticProximityEmbedding r t (afterMerge r ps) := by
+  cases hF : r.hasF
+  · exact verdict_SPE_global_nof r t ps hget hm hg hF
+  · exact verdict_SPE_global_f r t ps hget hm hg hF
+
+theorem verdict_StochasticProximityEmbedding (r : Request) (t : TypedVals) (ps : PSet) (hget : ∀ k, ps.get k = t.get k)
+    (hm : t.meth .method = .StochasticProximityEmbedding) : Verdict .StochasticProximityEmbedding r t (afterMerge r ps) := by
+  cases hg : t.bool .spe_global_strategy
+  · exact verdict_SPE_local r t ps hget hm hg
+  · exact verdict_SPE_global r t ps hget hm hg
+
+theorem verdict_KernelPrincipalComponentAnalysis_f (r : Request) (t : TypedVals) (ps : PSet) (hget : ∀ k, ps.get k = t.get k)
+    (hm : t.meth .method = .KernelPrincipalComponentAnalysis) (hF : r.hasF = true) : Verdict .KernelPrincipalComponentAnalysis r t (afterMerge r ps) := by
+  front_simp [hget, hm, hF]
+  split_ifs <;> verdict_leaf
+
+theorem verdict_KernelPrincipalComponentAnalysis_nof (r : Request) (t : TypedVals) (ps : PSet) (hget : ∀ k, ps.get k = t.get k)
+    (hm : t.meth .method = .KernelPrincipalComponentAnalysis) (hF : r.hasF = false) : Verdict .KernelPrincipalComponentAnalysis r t (afterMerge r ps) := by
+  front_simp [hget, hm, hF]
+  split_ifs <;> verdict_leaf
+
+theorem verdict_KernelPrincipalComponentAnalysis (r : Request) (t : TypedVals) (ps : PSet) (hget : ∀ k, ps.get k = t.get k)
+    (hm : t.meth .method = .KernelPrincipalComponentAnalysis) : Verdict .KernelPrincipalComponentAnalysis r t (afterMerge r ps) := by
+  cases hF : r.hasF
+  · exact verdict_KernelPrincipalComponentAnalysis_nof r t ps hget hm hF
+  · exact verdict_KernelPrincipalComponentAnalysis_f r t ps hget hm hF
+
+theorem verdict_PrincipalComponentAnalysis_f (r : Request) (t : TypedVals) (ps : PSet) (hget : ∀ k, ps.get k = t.get k)
+    (hm : t.meth .method = .PrincipalComponentAnalysis) (hF : r.hasF = true) : Verdict .PrincipalComponentAnalysis r t (afterMerge r ps) := by
+  front_simp [hget, hm, hF]
+  split_ifs <;> verdict_leaf
+
+theorem verdict_PrincipalComponentAnalysis_nof (r : Request) (t : TypedVals) (ps : PSet) (hget : ∀ k, ps.get k = t.get k)
+    (hm : t.meth .method = .PrincipalComponentAnalysis) (hF : r.hasF = false) : Verdict .PrincipalComponentAnalysis r t (afterMerge r ps) := by
+  front_simp [hget, hm, hF]
+  split_ifs <;> verdict_leaf
+
+theorem verdict_PrincipalComponentAnalysis (r : Request) (t : TypedVals) (ps : PSet) (hget : ∀ k, ps.get k = t.get k)
+    (hm : t.meth .method = .PrincipalComponentAnalysis) : Verdict .PrincipalComponentAnalysis r t (afterMerge r ps) := by
+  cases hF : r.hasF
+  · exact verdict_PrincipalComponentAnalysis_nof r t ps hget hm hF
+  · exact verdict_PrincipalComponentAnalysis_f r t ps hget hm hF
+
+theorem verdict_RandomProjection_f (r : Request) (t : TypedVals) (ps : PSet) (hget : ∀ k, ps.get k = t.get k)
+    (hm : t.meth .method = .RandomProjection) (hF : r.hasF = true) : Verdict .RandomProjection r t (afterMerge r ps) := by
+  front_simp [hget, hm, hF]
+  split_ifs <;> verdict_leaf
+
+theorem verdict_RandomProjection_nof (r : Request) (t : TypedVals) (ps : PSet) (hget : ∀ k, ps.get k = t.get k)
+    (hm : t.meth .method = .RandomProjection) (hF : r.hasF = false) : Verdict .RandomProjection r t (afterMerge r ps) := by
+  front_simp [hget, hm, hF]
+  split_ifs <;> verdict_leaf
+
+theorem verdict_RandomProjection (r : Request) (t : TypedVals) (ps : PSet) (hget : ∀ k, ps.get k = t.get k)
+    (hm : t.meth .method = .RandomProjection) : Verdict .RandomProjection r t (afterMerge r ps) := by
+  cases hF : r.hasF
+  · exact verdict_RandomProjection_nof r t ps hget hm hF
+  · exact verdict_RandomProjection_f r t ps hget hm hF
 
 end TapkeeVerif.Params
